@@ -115,6 +115,8 @@ func (aw *AsyncWorker) BranchCommit(ctx context.Context, req rm.BranchResource) 
 	select {
 	case aw.commitQueue <- phaseCtx:
 	case <-ctx.Done():
+		// not queued: the undo log would never be deleted, so the commit must not be reported as done
+		return branch.BranchStatusPhasetwoCommitFailedRetryable, ctx.Err()
 	}
 
 	aw.receiveChanLength.Add(float64(len(aw.commitQueue)))
